@@ -49,6 +49,9 @@ package bluemonday
 //@   modifies nothing
 //@   ensures[C16] outFailed ==> result != nil
 //@   ensures[C16] result == nil ==> tzErr == io.EOF
+//@   requires[textpres] !p.allowUnsafe
+//@   at-call (*html.Tokenizer).Next
+//@     assume[textpres] isTagTok(tzCur) ==> normalise(tzCur.Data) != "script" && normalise(tzCur.Data) != "style" && !(tzCur.Data in p.setOfElementsToSkipContent)
 //@   at-call (io.StringWriter).WriteString(w, s)
 //@     assert[C01] emitC01(p, token, s) || (p.allowUnsafe && token.Type == 1 && s == token.Data && isScriptStyle(mostRecentlyStartedToken) && elAllowed(p, mostRecentlyStartedToken))
 //@     assert[C05] emitC05(p, token, tzPrev, s)
@@ -59,7 +62,10 @@ package bluemonday
 //@     invariant skipClosingTag <==> len(closingTagToSkipStack) > 0
 //@     invariant[C16] !outFailed
 //@     invariant[C05] tzCur.Type == 2 ==> mostRecentlyStartedToken == normalise(tzCur.Data)
+//@     invariant[C06,textpres] !skipElementContent && skippingElementsCount == 0 && mostRecentlyStartedToken != "script" && mostRecentlyStartedToken != "style"
+//@     invariant[C06,textpres] stepOK(p, tzCur, outN, outLast)
 //@   loop 1 "for regex := range p.elsMatchingAndAttrs"
+//@     invariant[C06,textpres] skippingElementsCount == 0 && mostRecentlyStartedToken != "script" && mostRecentlyStartedToken != "style"
 //@     invariant match <==> (exists r *regexp.Regexp :: $visited(r) && rmatch(r, token.Data))
 //@     invariant wfp(p) && p.initialized
 //@     invariant skipClosingTag <==> len(closingTagToSkipStack) > 0
